@@ -166,3 +166,46 @@ func VerifC20Foreign(h *verifh.H) {
 	h.Assert(err == nil && string(b) == "some-other-store", "the foreign store id is kept")
 	h.Observe("done", true)
 }
+
+// VerifC20DuringRun: a client writes while a backup run is in progress (every
+// Badger access of /repo code — transaction starts, the backup stream, the
+// version query — and every lock acquisition is a scheduling point). Whatever
+// the interleaving, nothing committed is lost to the backups: after one more,
+// undisturbed run the restored location answers as the source did when that
+// run started. (What the disturbed run itself contains is a snapshot taken
+// somewhere inside the concurrent write and is not compared.)
+func VerifC20DuringRun(h *verifh.H) {
+	env := VerifConfig(h, time.Hour)
+	location := h.TempDir() + "/backup"
+	hub := VerifOpenHub(env)
+	ds, err := hub.Dsm.CreateDataset("d", nil)
+	h.Assert(err == nil, "create")
+	bm := vNewBackupManager(h, hub, location)
+	first := &mVersion{ID: "ns0:e1", Props: map[string]string{"ns0:v": "x"}, Refs: map[string][]string{}}
+	h.Assert(ds.StoreEntities([]*Entity{mkEntity(first)}) == nil, "first write")
+	if h.Choice("earlierRun", 2) == 1 {
+		h.Assert(!vRun(bm), "an earlier backup run completes")
+	}
+	v := drawVersion(h, []string{"ns0:e1", "ns0:e2"}, []string{"ns0:e2", "ns0:e3"}, vFamily{P1: 2, P2: false, Vals: 2, Del: true})
+	v.Props["ns0:k"] = "during"
+	var werr error
+	var runPanicked bool
+	h.SymbolicLocks()
+	h.SymbolicTxns()
+	h.SymbolicSched(h.Param("preemptions", 1))
+	h.Go(func() { runPanicked = vRun(bm) })
+	h.Go(func() { werr = ds.StoreEntities([]*Entity{mkEntity(v)}) })
+	h.Assert(h.Wait(), "backup run and writer complete")
+	h.Assert(werr == nil && !runPanicked, "both succeed")
+	// one more, undisturbed run
+	atStart := vObsBackup(h, hub)
+	h.Assert(!vRun(bm), "backup run completes")
+	rdir := h.TempDir() + "/restore"
+	h.RestoreBackup(location+"/datahub-backup.kv", rdir)
+	renv := &conf.Config{Logger: env.Logger, StoreLocation: rdir, FullsyncLeaseTimeout: time.Hour, RunnerConfig: env.RunnerConfig}
+	rhub := VerifOpenHub(renv)
+	got := vObsBackup(h, rhub)
+	h.Assert(got == atStart, "after a write that raced a backup run, the next run's backup restores to the source's state :: restored="+got+" source="+atStart)
+	_ = rhub.Store.Close()
+	h.Observe("ok", got == atStart)
+}
